@@ -210,7 +210,7 @@ Proof.
   pose proof (chain_ok E nm Hty Hpa v k Hp He Hk k 0%nat 0%nat fuel [] ltac:(lia)
                 (fun i Hi => Hl i ltac:(lia)) ltac:(lia) ltac:(lia)) as H.
   destruct (assoc (nm 0%nat) (e_progs E)) as [c|] eqn:A.
-  - rewrite (program_under_same_bindings (run fuel) E 0 (nm 0%nat) c []) in H; auto.
+  - rewrite (program_under_same_bindings (run fuel) E 0 (nm 0%nat) c []) in H; auto. rewrite H. reflexivity.
   - exfalso. destruct k as [|k]; [congruence|]. specialize (Hl 0%nat ltac:(lia)). unfold links in Hl. congruence.
 Qed.
 
@@ -222,7 +222,7 @@ Proof.
   intros Hty Hpa Hl Hf. unfold exec.
   pose proof (chain_too_deep E nm Hty Hpa Hl 32 0%nat 0%nat fuel [] ltac:(lia) ltac:(lia)) as H.
   rewrite (Hl 0%nat).
-  rewrite (program_under_same_bindings (run fuel) E 0 (nm 0%nat) [IPush (VIdent (nm 1%nat))] []) in H; auto. apply Hl.
+  rewrite (program_under_same_bindings (run fuel) E 0 (nm 0%nat) [IPush (VIdent (nm 1%nat))] []) in H; auto; [|apply Hl]. rewrite H. reflexivity.
 Qed.
 
 (** a program that names itself, and two programs that name each other *)
